@@ -71,9 +71,10 @@ class RecForecaster(_OptionalForecastingHorizonMixin, _SktimeForecaster):
 
     def _predict(self, fh, X=None, return_pred_int=False, alpha=0.05):
         rel = [int(v) for v in fh.to_relative(self.cutoff).to_pandas()]
-        LOG.append(("F", self.tag, "predict", [], rel, None))
         idx = fh.to_absolute(self.cutoff).to_pandas()
-        return pd.Series([self.level_ + self.d * h for h in rel], index=idx)
+        out = pd.Series([self.level_ + self.d * h for h in rel], index=idx)
+        LOG.append(("F", self.tag, "predict", ser(out), rel, None))   # the forecast itself (labels and values) is logged
+        return out
 
     def update(self, y, X=None, update_params=True):
         LOG.append(("F", self.tag, "update", ser(y), None, bool(update_params)))
@@ -168,3 +169,32 @@ class RecRegressor(RegressorMixin, SkBase):
         LOG.append(("G", self.tag, "predict", [list(map(float, r)) for r in X], None, None))
         w = np.arange(1, X.shape[1] + 1, dtype="float64")
         return (X * w).sum(axis=1) * self.p + self.q * self.s_
+
+
+# ----------------------------------------------------------------------------- weighting algorithms of the online ensemble
+TAPE = []   # (tag, weights after the update) for every ensemble_algorithm.update call, in call order
+
+
+def _spy_algorithm(base):
+    class Spy(base):
+        """the real weighting algorithm; records the weights it holds after every update (survives deepcopy/clone)"""
+        tag = "w"
+
+        def update(self, y_pred, y_true, *a, **k):
+            r = super().update(y_pred, y_true, *a, **k)
+            TAPE.append((self.tag, [float(w) for w in self.weights]))
+            return r
+    Spy.__name__ = "Spy" + base.__name__
+    return Spy
+
+
+def make_algorithm(kind, n, tag):
+    """kind: 'nnls' | 'hedge' (NormalHedgeEnsemble with squared-error loss)"""
+    from sktime.forecasting.online_learning._prediction_weighted_ensembler import NNLSEnsemble, NormalHedgeEnsemble
+    from sklearn.metrics import mean_squared_error
+    if kind == "nnls":
+        a = _spy_algorithm(NNLSEnsemble)(n_estimators=n, loss_func=mean_squared_error)
+    else:
+        a = _spy_algorithm(NormalHedgeEnsemble)(n_estimators=n, loss_func=mean_squared_error)
+    a.tag = tag
+    return a
